@@ -135,8 +135,17 @@ def k_units(ctx):
     # (the code multiplies kilometres by the float constant 1000. / earth_radius)
     want = metres if metric == "minkowski" else \
         metres / 1000 * Fraction(repr(1000. / float(earth_radius)))
-    ctx.check("radius-handed-to-tree", ctx.close(r_tree, want, rel=1e-12),
-              detail="r_tree=%r" % (r_tree,))
+    # radii beyond the largest possible distance are equivalent (chord <= 2 R, arc <= pi)
+    import math
+    cap = 2 * float(earth_radius) if metric == "minkowski" else Fraction(repr(math.pi))
+    if ctx.sym:
+        from symx.num import Ite
+        eff = lambda r: Ite(r >= cap, cap, r)
+        ctx.check("radius-handed-to-tree", eff(r_tree) == eff(want), detail="r_tree=%r" % (r_tree,))
+    else:
+        ctx.check("radius-handed-to-tree",
+                  ctx.close(min(float(r_tree), float(cap)), min(float(want), float(cap)), rel=1e-12),
+                  detail="r_tree=%r" % (r_tree,))
 
 
 @harness("C06.bad-radius", cases=lambda tier: ["unknown-unit", "zero-length", "not-a-string"],
